@@ -23,19 +23,34 @@ inductive Mutation where
   | taggingPut | taggingDelete
   deriving Repr, DecidableEq
 
-private def s (x : String) : Str := x.toList
-
 /-- the S3 event a committed mutation stands for. AppendObject is S3's PutObject with a write
 offset; it creates or extends an object, so it is an ObjectCreated:Put. -/
 def eventName : Mutation → Str
-  | .put => s "s3:ObjectCreated:Put"
-  | .append => s "s3:ObjectCreated:Put"
-  | .copy => s "s3:ObjectCreated:Copy"
-  | .completeMultipart => s "s3:ObjectCreated:CompleteMultipartUpload"
-  | .delete => s "s3:ObjectRemoved:Delete"
-  | .deleteMarkerCreated => s "s3:ObjectRemoved:DeleteMarkerCreated"
-  | .taggingPut => s "s3:ObjectTagging:Put"
-  | .taggingDelete => s "s3:ObjectTagging:Delete"
+  | .put => evCreatedPut
+  | .append => evCreatedPut
+  | .copy => evCreatedCopy
+  | .completeMultipart => evCreatedComplete
+  | .delete => evRemovedDelete
+  | .deleteMarkerCreated => evRemovedMarker
+  | .taggingPut => evTaggingPut
+  | .taggingDelete => evTaggingDelete
+
+/-- what a call mutates: the objects (bucket, key) whose state changes, with the kind of change.
+A copy mutates its DESTINATION only. -/
+def mutated : Call → List (Mutation × Target)
+  | .put t => [(.put, t)]
+  | .copy _ dst => [(.copy, dst)]
+  | .complete t => [(.completeMultipart, t)]
+  | .delete t m => [(if m then .deleteMarkerCreated else .delete, t)]
+  | .deleteObjects b ks => ks.map fun k => (if k.2 then .deleteMarkerCreated else .delete, { bucket := b, key := k.1 })
+  | .tagPut t => [(.taggingPut, t)]
+  | .tagDel t => [(.taggingDelete, t)]
+  | .append t => [(.append, t)]
+
+/-- the events S3 semantics attach to a call: one per mutated object, named after the mutation,
+addressed to — and evaluated against the notification configuration of — the bucket that was mutated -/
+def specEvents (c : Call) : List Event :=
+  (mutated c).map fun mt => { name := eventName mt.1, bucket := mt.2.bucket, key := mt.2.key }
 
 /-- a configured event type covers an event name -/
 def Covers (configured name : Str) : Prop :=
@@ -48,7 +63,7 @@ def Selects (r : Rule) (e : Event) : Prop :=
 
 /-- the rows S3 semantics demand for one mutation: one per selecting rule (plus the EventBridge
 row of an EventBridge-enabled bucket) if it committed, none otherwise -/
-def demanded (c : Config) (committed : Bool) (e : Event) : List Row :=
-  if committed then entriesFor c e else []
+def demanded (cfgOf : Str → Config) (committed : Bool) (e : Event) : List Row :=
+  if committed then entriesFor (cfgOf e.bucket) e else []
 
 end Pithos.NotifyS3
